@@ -251,30 +251,169 @@ pub struct Player {
     pub actions: Box<[Node]>,
 }
 
+#[verifier::external_body] pub struct AtomicF64 { }
+impl AtomicF64 { pub uninterp spec fn id(&self) -> int; }
+#[verifier::external_body]
+#[verifier::reject_recursive_types(T)]
+pub struct Mutex<T> { t: core::marker::PhantomData<T> }
+pub enum Ordering { Relaxed }
+
+// ---- extracted from src/solve/vanilla.rs: struct MutexRegretInfoset ----
+pub struct MutexRegretInfoset {
+    pub cum_regret: Box<[AtomicF64]>,
+    pub cum_strat: Mutex<Box<[f64]>>,
+    pub strat: Box<[f64]>,
+}
+
+// value of the traversal of the subtree below `n` entered with the given reaches (recursive calls of
+// recurse_single are bound to it: R5)
+pub uninterp spec fn sub_spec(n: Node, p_chance: f64, p_player: [f64; 2]) -> f64;
+// counterfactual weight of the acting player's regrets: opponent reach x chance reach, negated for
+// player two (payoffs are player one's)
+pub open spec fn mult_spec(num: PlayerNum, p_chance: f64, p_player: [f64; 2]) -> real {
+    match num { PlayerNum::One => rv(p_chance) * rv(p_player[1]), PlayerNum::Two => 0real - rv(p_player[0]) * rv(p_chance) }
+}
+pub open spec fn own_reach(num: PlayerNum, p_player: [f64; 2]) -> f64 { match num { PlayerNum::One => p_player[0], PlayerNum::Two => p_player[1] } }
+// reach vector handed to the continuation of action a: only the acting player's entry is multiplied by sigma_a
 pub open spec fn pnext_ok(num: PlayerNum, p_player: [f64; 2], prob: f64, p_next: [f64; 2]) -> bool {
     match num {
         PlayerNum::One => rv(p_next[0]) == rv(p_player[0]) * rv(prob) && p_next[1] == p_player[1],
         PlayerNum::Two => p_next[0] == p_player[0] && rv(p_next[1]) == rv(p_player[1]) * rv(prob),
     }
 }
+// u is the value of the subtree below `node`, entered with the SAME chance reach and a reach vector
+// in which only the acting player's entry is multiplied by the action's probability
+pub open spec fn child_value(node: Node, num: PlayerNum, p_chance: f64, p_player: [f64; 2], prob: f64, u: f64) -> bool {
+    exists|pn: [f64; 2]| pnext_ok(num, p_player, prob, pn) && u == #[trigger] sub_spec(node, p_chance, pn)
+}
+pub open spec fn exp_one(strat: Seq<f64>, us: Seq<f64>, k: int) -> real decreases k {
+    if k <= 0 { 0real } else { exp_one(strat, us, k - 1) + rv(strat[k - 1]) * rv(us[k - 1]) }
+}
+pub open spec fn exp_cf(strat: Seq<f64>, us: Seq<f64>, mult: real, k: int) -> real decreases k {
+    if k <= 0 { 0real } else { exp_cf(strat, us, mult, k - 1) + rv(us[k - 1]) * mult * rv(strat[k - 1]) }
+}
 
-// ---- extracted from src/solve/vanilla.rs: fn thread_threshold ----
-pub fn thread_threshold__player_action<'a>(player: &Player, prob: &f64, next: &'a Node, p_chance: f64, p_player: [f64; 2], work: &mut Vec<(&'a Node, f64, [f64; 2])>, mut next_probs: [f64; 2])
+pub enum Ev {
+    // average strategy of infoset `0` += `1` x its current strategy
+    Ucs(MutexRegretInfoset, f64),
+    // cumulative regret cell `0` += `1`   /   -= `1`
+    Add(int, f64),
+    Sub(int, f64),
+}
+#[verifier::external_body] pub struct ChanceTables { }
+#[verifier::external_body] pub struct Cache { }
+// R16: logged forms of the three effectful calls
+#[verifier::external_body]
+pub fn __update_cum_strat(info: &MutexRegretInfoset, prob: f64, log: &mut Ghost<Seq<Ev>>)
+    ensures final(log)@ == old(log)@.push(Ev::Ucs(*info, prob)),
+{ unimplemented!() }
+#[verifier::external_body]
+pub fn __fetch_sub(cell: &AtomicF64, v: f64, o: Ordering, log: &mut Ghost<Seq<Ev>>)
+    ensures final(log)@ == old(log)@.push(Ev::Sub(cell.id(), v)),
+{ unimplemented!() }
+pub open spec fn rp_ok(us: Seq<f64>, adds: Seq<f64>, player: Player, p_chance: f64, p_player: [f64; 2], strat: Seq<f64>, cells: Seq<AtomicF64>, l_old: Seq<Ev>, l_new: Seq<Ev>, out: (f64, f64)) -> bool {
+    us.len() == player.actions@.len() && adds.len() == us.len()
+    && (forall|a: int| 0 <= a < us.len() ==> #[trigger] child_value(player.actions@[a], player.num, p_chance, p_player, strat[a], us[a]))
+    && (forall|a: int| 0 <= a < us.len() ==> rv(#[trigger] adds[a]) == rv(us[a]) * mult_spec(player.num, p_chance, p_player))
+    && l_new == l_old + Seq::new(us.len(), |a: int| Ev::Add(cells[a].id(), adds[a]))
+    && rv(out.0) == exp_one(strat, us, us.len() as int)
+    && rv(out.1) == exp_cf(strat, us, mult_spec(player.num, p_chance, p_player), us.len() as int)
+}
+#[verifier::external_body]
+pub fn __recurse_player<F: Fn(&Node, [f64; 2]) -> f64>(log: &mut Ghost<Seq<Ev>>, player: &Player, p_chance: f64, p_player: [f64; 2], strat: &[f64], cum_regret: &[AtomicF64], rec: F) -> (out: (f64, f64))
+    requires
+        forall|n: &Node, pn: [f64; 2]| #[trigger] rec.requires((n, pn)),
+        forall|n: &Node, pn: [f64; 2], o: f64| #[trigger] rec.ensures((n, pn), o) ==> o == sub_spec(*n, p_chance, pn),
     ensures
-        // exactly one frontier entry per action: the child, the unchanged chance reach, and the reach
-        // vector of ITS path -- only the acting player's entry multiplied by this action's probability
-        final(work)@.len() == old(work)@.len() + 1,
-        final(work)@.take(old(work)@.len() as int) == old(work)@,
-        final(work)@.last().0 == next && final(work)@.last().1 == p_chance, // @ob C06.V.thread_threshold.frontier_reach
-        pnext_ok(player.num, p_player, *prob, final(work)@.last().2), // @ob C06.V.thread_threshold.frontier_reach
+        exists|us: Seq<f64>, adds: Seq<f64>| #[trigger] rp_ok(us, adds, *player, p_chance, p_player, strat@, cum_regret@, old(log)@, final(log)@, out),
+{ unimplemented!() }
+#[verifier::external_body]
+pub fn __rec(node: &Node, chance_infosets: &ChanceTables, player_infosets: [&[MutexRegretInfoset]; 2], p_chance: f64, p_player: [f64; 2], cached: &Cache) -> (r: f64)
+    ensures r == sub_spec(*node, p_chance, p_player),
+{ unimplemented!() }
+// the events one visit of a decision node appends, given the children's values us
+pub open spec fn ve_ok(us: Seq<f64>, adds: Seq<f64>, sub: f64, pl: Player, p_chance: f64, p_player: [f64; 2], info: MutexRegretInfoset, res: f64, evs: Seq<Ev>) -> bool {
+    let m = mult_spec(pl.num, p_chance, p_player);
+    let n = pl.actions@.len() as int;
+    us.len() == n && adds.len() == n
+        && (forall|a: int| 0 <= a < n ==> #[trigger] child_value(pl.actions@[a], pl.num, p_chance, p_player, info.strat@[a], us[a]))
+        && (forall|a: int| 0 <= a < n ==> rv(#[trigger] adds[a]) == rv(us[a]) * m)
+        && rv(sub) == exp_cf(info.strat@, us, m, n)
+        && rv(res) == exp_one(info.strat@, us, n)
+        // average strategy += own reach x strategy; then regret_a += mult x u_a; then regret_a -= sum_b u_b mult sigma_b
+        && evs == seq![Ev::Ucs(info, own_reach(pl.num, p_player))]
+            + Seq::new(n as nat, |a: int| Ev::Add(info.cum_regret@[a].id(), adds[a]))
+            + Seq::new(n as nat, |a: int| Ev::Sub(info.cum_regret@[a].id(), sub))
+}
+pub open spec fn visit_events(pl: Player, p_chance: f64, p_player: [f64; 2], info: MutexRegretInfoset, res: f64, evs: Seq<Ev>) -> bool {
+    exists|us: Seq<f64>, adds: Seq<f64>, sub: f64| #[trigger] ve_ok(us, adds, sub, pl, p_chance, p_player, info, res, evs)
+}
+
+// ---- extracted from src/solve/vanilla.rs: fn recurse_multi ----
+pub fn recurse_multi__player_arm(player: &Player, chance_infosets: &ChanceTables, player_infosets: [&[MutexRegretInfoset]; 2], p_chance: f64, p_player: [f64; 2], cached: &Cache, log: &mut Ghost<Seq<Ev>>) -> (out: f64)
+    requires
+        player.infoset < (match player.num { PlayerNum::One => player_infosets[0]@, PlayerNum::Two => player_infosets[1]@ }).len(),
+        ({ let i = (match player.num { PlayerNum::One => player_infosets[0]@, PlayerNum::Two => player_infosets[1]@ })[player.infoset as int];
+           i.strat@.len() == player.actions@.len() && i.cum_regret@.len() == player.actions@.len() }),
+    ensures
+        // exactly these updates, on the acting player's infoset of this node, each once
+        exists|evs: Seq<Ev>| final(log)@ == old(log)@ + evs && visit_events(*player, p_chance, p_player,
+            (match player.num { PlayerNum::One => player_infosets[0]@, PlayerNum::Two => player_infosets[1]@ })[player.infoset as int], out, evs), // @ob C08.V.recurse_multi.player_arm
 {
 broadcast use fl; broadcast use ideal;
 proof { ax_obeys(); ax_rv_lits(); }
+let ghost l0 = log@;
+let ghost inf = (match player.num { PlayerNum::One => player_infosets[0]@, PlayerNum::Two => player_infosets[1]@ })[player.infoset as int];
+let ghost n = player.actions@.len() as int;
 
-                    let mut next_probs = p_player;
-                    *player.num.ind_mut(&mut next_probs) = *player.num.ind_mut(&mut next_probs) * ( prob);
-                    work.push((next, p_chance, next_probs));
-                }
+                // get infoset
+                let info = &player.num.ind(&player_infosets)[player.infoset];
+                __update_cum_strat(info, *player.num.ind(&p_player), log); let ghost lu = log@;
+                let (res, sub) = __recurse_player(log, 
+                    player,
+                    p_chance,
+                    p_player,
+                    &info.strat,
+                    &*info.cum_regret,
+                    |next: &Node, p_next: [f64; 2]| -> (o: f64) ensures o == sub_spec(*next, p_chance, p_next) {
+                        __rec(next,
+                            chance_infosets,
+                            player_infosets,
+                            p_chance,
+                            p_next,
+                            cached,
+                        )
+                    },
+                );
+                let ghost l1 = log@;
+for val in it: info.cum_regret.iter() 
+invariant
+    0 <= it.index@ <= n, n == inf.cum_regret@.len(), *info == inf,
+    log@ == l1 + Seq::new(it.index@ as nat, |a: int| Ev::Sub(inf.cum_regret@[a].id(), sub)),
+{
+let ghost k = it.index@ as int;
+let ghost lb = log@;
+
+                    __fetch_sub(val, sub, Ordering::Relaxed, log);
+                
+proof {
+    assert(*val == inf.cum_regret@[k]);
+    assert(log@ =~= l1 + Seq::new((k + 1) as nat, |a: int| Ev::Sub(inf.cum_regret@[a].id(), sub)));
+}
+}
+let ghost l2 = log@;
+
+                proof {
+    assert(*info == inf);
+    let (us, adds) = choose|us: Seq<f64>, adds: Seq<f64>| #[trigger] rp_ok(us, adds, *player, p_chance, p_player, inf.strat@, inf.cum_regret@, lu, l1, (res, sub));
+    let evs = seq![Ev::Ucs(inf, own_reach(player.num, p_player))]
+        + Seq::new(n as nat, |a: int| Ev::Add(inf.cum_regret@[a].id(), adds[a]))
+        + Seq::new(n as nat, |a: int| Ev::Sub(inf.cum_regret@[a].id(), sub));
+    assert(log@ =~= l0 + evs);
+    assert(ve_ok(us, adds, sub, *player, p_chance, p_player, inf, res, evs));
+}
+res
+            }
 
 
 // vacuity canary: must be REJECTED by the verifier (an inconsistent axiom set would accept it)
